@@ -191,7 +191,10 @@ def run_check(chk, tier, seed, replay=None):
 
     work = os.path.join(BUILD, "work", pid)
     shutil.rmtree(work, ignore_errors=True)
-    os.makedirs(work)
+    if os.path.exists(work):            # leftovers of an interrupted run that could not be removed: use a fresh sibling directory
+        work = work + "." + str(os.getpid())
+        shutil.rmtree(work, ignore_errors=True)
+    os.makedirs(work, exist_ok=True)
     jobs = chk["workers"](tier, seed, work)
     budget = chk.get("timeout", {}).get(tier, 1500)
     results = run_parallel(jobs, budget)
